@@ -978,17 +978,28 @@ class TorConfig:
         # way to put things into a config and get them out again
         # nicely...unless you just don't assign a protocol
         if self.protocol:
+            # remember what this SETCONF carries, so that changes made
+            # while it is in flight stay pending afterwards
+            saved = dict(
+                (k, list(v) if isinstance(v, list) else v)
+                for (k, v) in self.unsaved.items()
+            )
             d = self.protocol.set_conf(*args)
-            d.addCallback(self._save_completed)
+            d.addCallback(self._save_completed, saved)
             return d
 
         else:
             self._save_completed()
             return defer.succeed(self)
 
-    def _save_completed(self, *args):
+    def _save_completed(self, result=None, saved=None):
         '''internal callback'''
-        self.__dict__['unsaved'] = {}
+        if saved is None:
+            self.__dict__['unsaved'] = {}
+        else:
+            for (k, v) in saved.items():
+                if k in self.unsaved and self.unsaved[k] == v:
+                    del self.unsaved[k]
         return self
 
     def _find_real_name(self, name):
